@@ -64,7 +64,8 @@ def main():
     for i in range(ck.scale(6, 60)):
         lib = headers.Lib(rng, nclasses=rng.randrange(1, 5))
         hp = os.path.join(wd, 'a%d.h' % i)
-        open(hp, 'w').write(lib.render())
+        # plus published global variables and macros, so that every global list (manifests, globals, types, functions) is non-empty
+        open(hp, 'w').write(lib.render() + 'BEGIN_PUBLISH\nextern int gvar_%d;\nextern double gdbl_%d;\nint gfun_%d(int x);\n#define GMAN_%d %d\nEND_PUBLISH\n' % (i, i, i, i, 40 + i))
         dbp = os.path.join(wd, 'a%d.in' % i)
         opts = rng.choice([['-c', '-fnames'], ['-python-native'], ['-c', '-python', '-fnames', '-promiscuous']])
         p = vlib.sh([b['interrogate'], '-DCPPPARSER', '-oc', os.path.join(wd, 'a.cxx'), '-od', dbp, '-module', 'm', '-library', 'lib%d' % i] + opts + [hp], cwd=wd)
@@ -105,6 +106,36 @@ def main():
                                     {'kind': 'spec', 'files_hex': {os.path.basename(f): open(f, 'rb').read().hex() for f in fs}, 'cmd': 'querytool %s <files>' % mode, 'line': l})
                 if rc == 0 or all(('<null>' in l and classify_bad(l).endswith(NEUTRAL_NULL_OK)) for l in out.splitlines() if l.startswith('BAD')):
                     ck.nontrivial('%s:%s:%s' % (mode, tk, fs[0]))
+    # the function-pointer table of a registered module: the entry inside its index range, the neutral value everywhere else (extremes included)
+    reals = [f[1][0] for f in files if f[0] == 'real']
+    for tk, t in tools:
+        for plain in ['-'] + reals[:2]:
+            for modf in reals[:3]:
+                if modf == plain:
+                    continue
+                for nptr in (1, 3, 7):
+                    p = subprocess.run([t, 'fptrs', plain, modf, str(nptr)], stdout=subprocess.PIPE, stderr=subprocess.PIPE, text=True, timeout=60)
+                    ck.count()
+                    ck.dist('fptrs:%s' % tk)
+                    rp = {'kind': 'spec', 'cmd': 'querytool fptrs <plain.in or -> <module.in> %d' % nptr, 'files_hex': {os.path.basename(f): open(f, 'rb').read().hex() for f in [modf] + ([plain] if plain != '-' else [])},
+                          'output': p.stdout[-800:]}
+                    if p.returncode not in (0, 1) or 'DONE' not in p.stdout:
+                        ck.spec_failure('crash:fptrs', 'interrogate_wrapper_pointer sweep crashed (status %s): %s' % (p.returncode, p.stderr[-200:]), rp)
+                    elif p.returncode == 1:
+                        ck.spec_failure('neutral:interrogate_wrapper_pointer', [l for l in p.stdout.splitlines() if l.startswith('BAD')][0][4:], rp)
+                    else:
+                        ck.nontrivial('fptrs%s%s%s%d' % (tk, plain, modf, nptr))
+        # a count asked as the very first query after a request equals the count once everything is loaded
+        for fs in [[f] for f in reals[:3]] + ([reals[:2]] if len(reals) >= 2 else []):
+            for k in range(6):
+                p = subprocess.run([t, 'firstcount', str(k)] + fs, stdout=subprocess.PIPE, stderr=subprocess.PIPE, text=True, timeout=60)
+                ck.count()
+                ck.dist('firstcount:%s' % tk)
+                if p.returncode != 0:
+                    ck.spec_failure('count:first-query', 'a count asked first differs from the count after loading: %s' % p.stdout.strip()[:200],
+                                    {'kind': 'spec', 'cmd': 'querytool firstcount %d <files>' % k, 'files_hex': {os.path.basename(f): open(f, 'rb').read().hex() for f in fs}, 'output': p.stdout})
+                else:
+                    ck.nontrivial('firstcount%s%d%s' % (tk, k, fs[0]))
     # by-name lookup model vs library on synthetic name tables with duplicates
     for i in range(ck.scale(40, 600)):
         g = dbgen.DbGen(rng, fl, sizes=(0, 0, rng.randrange(1, 7), 0, 0, 0), adversarial=False)
